@@ -156,6 +156,7 @@ impl Shared {
     }
 
     fn tick(&mut self, what: &'static str) {
+        clock::spin_reset();
         self.op_calls += 1;
         if self.op_calls > self.cfg.watchdog_calls {
             std::panic::resume_unwind(Box::new(Watchdog(what)));
